@@ -5479,6 +5479,635 @@ fn stream_comments(m: &mut Model, rep: &mut Report, rng: &Rng, thorough: bool) {
     }
 }
 
+// ------------------------------------------------------------------ a string literal means what was written
+//
+// Property oracle on the REAL lexer / parser / router, independent of the model's answers: what a string
+// literal MEANS.  For a string VALUE v and a delimiter q, `str_render(v, q)` is the canonical literal (the
+// delimiter doubled, a backslash doubled, a newline as `\n`, every other character — the quote of the OTHER
+// kind included, alone or in runs — as it is; written from the MODEL's `renderCp`, Parse/Lex.lean;
+// `LexStrProps.string_literal_round_trip` is the theorem).  Then, layer by layer:
+//   1. lexer   tokenize(literal) is exactly one String token with value v spanning the literal, then Eof;
+//              the same inside a statement, the neighbouring tokens untouched
+//   2. parser  the literal of the parsed INSERT statement is v
+//   3. router  (third clause of C15) INSERT … VALUES (k, literal) as text on A, RelationalEngine::insert with v on
+//              B: the value read back by SELECT through the text path on A, and by the direct call on B, is v;
+//              SELECT … WHERE v = literal' (the OTHER delimiter) finds the rows the direct call finds; UPDATE …
+//              SET v = literal''; NODE CREATE doc {body: literal} against GraphEngine::create_node.
+// The class is the FIRST layer that fails.  `str_ref_value` (written from the model's `litValue`) gives the
+// meaning of arbitrary bodies, canonical or not (`\'`, `\"`, `\\`, unknown escapes): the strlit.body stream.
+// strlit.reference_vs_model keeps the two reference functions equal to the Lean definitions.
+
+const STR_LEX_CLASS: &str = "neumann_parser::Lexer::scan_string/string_value_differs_from_written";
+const STR_PARSE_CLASS: &str = "neumann_parser::Parser::parse/string_literal_differs_from_its_token";
+const STR_EXEC_CLASS: &str = "query_router::QueryRouter::execute_parsed/string_value_differs_from_direct_call";
+
+/// the canonical literal for the value `v` with delimiter `q` (model: `q :: litRender q v ++ [q]`)
+fn str_render(v: &str, q: char) -> String {
+    let mut out = String::with_capacity(v.len() + 4);
+    out.push(q);
+    for c in v.chars() {
+        if c == q {
+            out.push(q);
+            out.push(q);
+        } else if c == '\\' {
+            out.push_str("\\\\");
+        } else if c == '\n' {
+            out.push_str("\\n");
+        } else {
+            out.push(c);
+        }
+    }
+    out.push(q);
+    out
+}
+
+/// the escape table (model: `escape`)
+fn str_escape(d: char, out: &mut String) {
+    match d {
+        'n' => out.push('\n'),
+        'r' => out.push('\r'),
+        't' => out.push('\t'),
+        '\\' => out.push('\\'),
+        '\'' => out.push('\''),
+        '"' => out.push('"'),
+        '0' => out.push('\0'),
+        c => {
+            out.push('\\');
+            out.push(c);
+        }
+    }
+}
+
+/// what the characters `body` between two delimiters `q` mean (model: `litValue`); `None`: not a body (a lone
+/// delimiter, a raw newline, a backslash at the very end)
+fn str_ref_value(body: &str, q: char) -> Option<String> {
+    let cs: Vec<char> = body.chars().collect();
+    let mut out = String::new();
+    let mut i = 0;
+    while i < cs.len() {
+        let c = cs[i];
+        if c == q {
+            if i + 1 < cs.len() && cs[i + 1] == q {
+                out.push(q);
+                i += 2;
+            } else {
+                return None;
+            }
+        } else if c == '\\' {
+            if i + 1 < cs.len() {
+                str_escape(cs[i + 1], &mut out);
+                i += 2;
+            } else {
+                return None;
+            }
+        } else if c == '\n' {
+            return None;
+        } else {
+            out.push(c);
+            i += 1;
+        }
+    }
+    Some(out)
+}
+
+fn str_cps(s: &str) -> String {
+    s.chars().map(|c| (c as u32).to_string()).collect::<Vec<_>>().join(" ")
+}
+
+fn str_cps_ans(tag: &str, s: &str) -> String {
+    if s.is_empty() {
+        format!("{tag} -")
+    } else {
+        format!("{tag} {}", s.chars().map(|c| (c as u32).to_string()).collect::<Vec<_>>().join(","))
+    }
+}
+
+struct StrCx {
+    a: query_router::QueryRouter,
+    b: query_router::QueryRouter,
+    k: i64,
+    reported: std::collections::BTreeSet<String>,
+}
+
+fn str_router() -> query_router::QueryRouter {
+    let q = query_router::QueryRouter::new();
+    let schema = Schema::new(vec![Column::new("k", ColumnType::Int), Column::new("v", ColumnType::String)]);
+    q.relational().create_table("s", schema).expect("create");
+    q
+}
+
+impl StrCx {
+    fn new() -> StrCx {
+        StrCx { a: str_router(), b: str_router(), k: 0, reported: Default::default() }
+    }
+    fn next_key(&mut self) -> i64 {
+        self.k += 1;
+        if self.k % 400 == 0 {
+            // keep the scans short
+            self.a = str_router();
+            self.b = str_router();
+        }
+        self.k
+    }
+}
+
+struct StrFail {
+    layer: u8,
+    /// the value whose literal / statement this is
+    value: String,
+    what: String,
+    statement: String,
+    got: String,
+}
+
+fn str_class(layer: u8) -> &'static str {
+    match layer {
+        1 => STR_LEX_CLASS,
+        2 => STR_PARSE_CLASS,
+        _ => STR_EXEC_CLASS,
+    }
+}
+
+fn str_show_toks(toks: &[np::Token]) -> String {
+    toks.iter().map(|t| format!("{:?}@{}-{}", t.kind, t.span.start.0, t.span.end.0)).collect::<Vec<_>>().join(" ")
+}
+
+/// the `v` cell of the only row
+fn str_cell(rows: &[relational_engine::Row]) -> std::result::Result<String, String> {
+    if rows.len() != 1 {
+        return Err(format!("{} rows", rows.len()));
+    }
+    match rows[0].values.iter().find(|(k, _)| k == "v") {
+        Some((_, RV::String(s))) => Ok(s.clone()),
+        other => Err(format!("cell {other:?}")),
+    }
+}
+
+fn str_read_text(q: &query_router::QueryRouter, k: i64) -> std::result::Result<String, String> {
+    match q.execute_parsed(&format!("SELECT v FROM s WHERE k = {k}")) {
+        Ok(query_router::QueryResult::Rows(rows)) => str_cell(&rows),
+        other => Err(canon_qr(&other)),
+    }
+}
+
+fn str_read_direct(q: &query_router::QueryRouter, k: i64) -> std::result::Result<String, String> {
+    match q.relational().select("s", Condition::Eq("k".to_string(), RV::Int(k))) {
+        Ok(rows) => str_cell(&rows),
+        Err(e) => Err(format!("error {}", vname(&e))),
+    }
+}
+
+fn vname<E: std::fmt::Debug>(e: &E) -> String {
+    let d = format!("{e:?}");
+    d.chars().take_while(|c| c.is_alphanumeric() || *c == '_').collect()
+}
+
+fn str_keys(rows: &[relational_engine::Row]) -> Vec<i64> {
+    let mut ks: Vec<i64> = rows
+        .iter()
+        .filter_map(|r| r.values.iter().find(|(k, _)| k == "k").and_then(|(_, v)| if let RV::Int(i) = v { Some(*i) } else { None }))
+        .collect();
+    ks.sort();
+    ks
+}
+
+/// the literal alone through the real lexer: exactly one String token with the value `v` spanning it, then Eof
+fn str_lex_alone(v: &str, lit: &str) -> Option<StrFail> {
+    use np::TokenKind as TK;
+    let toks = match guarded({ let l = lit.to_string(); move || np::tokenize(&l) }) {
+        Ok(t) => t,
+        Err(p) => return Some(StrFail { layer: 1, value: v.to_string(), what: format!("tokenize panics on the literal: {p}"), statement: lit.to_string(), got: "panic".into() }),
+    };
+    let alone_ok = toks.len() == 2
+        && matches!(&toks[0].kind, TK::String(s) if s == v)
+        && toks[0].span.start.0 == 0
+        && toks[0].span.end.0 as usize == lit.len()
+        && matches!(toks[1].kind, TK::Eof);
+    if alone_ok {
+        return None;
+    }
+    let got = match toks.first().map(|t| &t.kind) {
+        Some(TK::String(s)) => format!("{s:?}"),
+        _ => str_show_toks(&toks),
+    };
+    Some(StrFail {
+        layer: 1,
+        value: v.to_string(),
+        what: format!("the literal {lit} is the canonical spelling of the value {v:?} ({} characters) but lexes as {}", v.chars().count(), str_show_toks(&toks)),
+        statement: lit.to_string(),
+        got,
+    })
+}
+
+/// the parsed statement carries a string literal with exactly the value `v` (layer 2 for the statements whose
+/// AST shape is not taken apart here)
+fn str_parse_carries(stmt: &str, v: &str) -> Option<StrFail> {
+    let dbg = match guarded({ let s = stmt.to_string(); move || np::parse(&s).map(|st| format!("{st:?}")) }) {
+        Ok(Ok(d)) => d,
+        Ok(Err(e)) => format!("parse error {}", kind_tag(&e.kind)),
+        Err(p) => format!("panic {p}"),
+    };
+    if dbg.contains(&format!("String({v:?})")) {
+        return None;
+    }
+    let got: String = dbg.match_indices("String(").map(|(i, _)| dbg[i..].chars().take(40).collect::<String>()).collect::<Vec<_>>().join(" … ");
+    Some(StrFail {
+        layer: 2,
+        value: v.to_string(),
+        what: format!("`{stmt}`: the lexer's String token carries {v:?} but the parsed statement has no string literal with that value ({})", if got.is_empty() { &dbg[..dbg.len().min(80)] } else { &got }),
+        statement: stmt.to_string(),
+        got,
+    })
+}
+
+/// every layer on the REAL code; the first one that does not hold.  After a failure the twin databases are
+/// replaced (they may have diverged), so that the next evaluation starts from equal states.
+fn str_eval(cx: &mut StrCx, v: &str, q: char, deep: bool) -> Option<StrFail> {
+    let f = str_eval_layers(cx, v, q, deep);
+    if f.is_some() {
+        cx.a = str_router();
+        cx.b = str_router();
+    }
+    f
+}
+
+fn str_eval_layers(cx: &mut StrCx, v: &str, q: char, deep: bool) -> Option<StrFail> {
+    use np::TokenKind as TK;
+    let lit = str_render(v, q);
+    let other = if q == '\'' { '"' } else { '\'' };
+    let v2 = format!("{v}{v}");
+    // ---- 1. lexer: EVERY literal the later layers put into a statement, alone
+    if let Some(f) = str_lex_alone(v, &lit) {
+        return Some(f);
+    }
+    if let Some(f) = str_lex_alone(v, &str_render(v, other)) {
+        return Some(f);
+    }
+    if deep {
+        if let Some(f) = str_lex_alone(&v2, &str_render(&v2, q)) {
+            return Some(f);
+        }
+    }
+    // ---- 1b. lexer, inside a statement
+    let k = cx.next_key();
+    let prefix = format!("INSERT INTO s (k, v) VALUES ({k}, ");
+    let stmt = format!("{prefix}{lit})");
+    let toks = match guarded({ let s = stmt.clone(); move || np::tokenize(&s) }) {
+        Ok(t) => t,
+        Err(p) => return Some(StrFail { layer: 1, value: v.to_string(), what: format!("tokenize panics: {p}"), statement: stmt, got: "panic".into() }),
+    };
+    let at = toks.iter().position(|t| t.span.start.0 as usize == prefix.len());
+    let in_stmt_ok = match at {
+        Some(i) => {
+            matches!(&toks[i].kind, TK::String(s) if s == v)
+                && toks[i].span.end.0 as usize == prefix.len() + lit.len()
+                && toks.len() == i + 3
+                && matches!(toks[i + 1].kind, TK::RParen)
+                && matches!(toks[i + 2].kind, TK::Eof)
+                && i == 12
+                && matches!(toks[i - 1].kind, TK::Comma)
+        }
+        None => false,
+    };
+    if !in_stmt_ok {
+        return Some(StrFail {
+            layer: 1,
+            value: v.to_string(),
+            what: format!("inside `{stmt}` the literal {lit} (value {v:?}) is not one String token with that value followed by `)`: {}", str_show_toks(&toks)),
+            statement: stmt,
+            got: str_show_toks(&toks),
+        });
+    }
+    // ---- 2. parser
+    let parsed: std::result::Result<Option<String>, String> = match guarded({ let s = stmt.clone(); move || np::parse(&s) }) {
+        Ok(Ok(st)) => match st.kind {
+            StatementKind::Insert(ins) => match ins.source {
+                np::InsertSource::Values(rows) => match rows.first().and_then(|r| r.get(1)).map(|e| &e.kind) {
+                    Some(ExprKind::Literal(Literal::String(s))) => Ok(Some(s.clone())),
+                    other => Err(format!("second value is {other:?}")),
+                },
+                _ => Err("not a VALUES insert".into()),
+            },
+            _ => Err("not an INSERT".into()),
+        },
+        Ok(Err(e)) => Err(format!("parse error {}", kind_tag(&e.kind))),
+        Err(p) => Err(format!("panic {p}")),
+    };
+    match &parsed {
+        Ok(Some(s)) if s == v => {}
+        other => {
+            return Some(StrFail {
+                layer: 2,
+                value: v.to_string(),
+                what: format!("`{stmt}`: the lexer's String token carries {v:?} but the parsed statement carries {other:?}"),
+                statement: stmt,
+                got: format!("{other:?}"),
+            })
+        }
+    }
+    // ---- 3. router: text on A, direct engine call on B
+    let ra = guarded(std::panic::AssertUnwindSafe(|| cx.a.execute_parsed(&stmt)));
+    let mut mm = std::collections::HashMap::new();
+    mm.insert("k".to_string(), RV::Int(k));
+    mm.insert("v".to_string(), RV::String(v.to_string()));
+    let rb = cx.b.relational().insert("s", mm);
+    let ra_ok = matches!(&ra, Ok(Ok(_)));
+    if ra_ok != rb.is_ok() {
+        return Some(StrFail {
+            layer: 3,
+            value: v.to_string(),
+            what: format!("`{stmt}` through execute_parsed: {} ; RelationalEngine::insert with the value {v:?}: {}",
+                match &ra { Ok(r) => canon_qr(r), Err(p) => format!("panic {p}") }, if rb.is_ok() { "ok" } else { "refused" }),
+            statement: stmt,
+            got: "result differs".into(),
+        });
+    }
+    if ra_ok {
+        let (sa, sb) = (str_read_text(&cx.a, k), str_read_direct(&cx.b, k));
+        if sa.as_deref() != Ok(v) || sb.as_deref() != Ok(v) {
+            return Some(StrFail {
+                layer: 3,
+                value: v.to_string(),
+                what: format!("after `{stmt}` SELECT v through the text path reads {sa:?}; the direct insert of {v:?} read back by the direct select gives {sb:?}"),
+                statement: stmt,
+                got: format!("{sa:?}"),
+            });
+        }
+        // the value as a search key, written with the other delimiter
+        let sel = format!("SELECT k FROM s WHERE v = {}", str_render(v, other));
+        if let Some(f) = str_parse_carries(&sel, v) {
+            return Some(f);
+        }
+        let ka = match guarded(std::panic::AssertUnwindSafe(|| cx.a.execute_parsed(&sel))) {
+            Ok(Ok(query_router::QueryResult::Rows(rows))) => Ok(str_keys(&rows)),
+            Ok(other) => Err(canon_qr(&other)),
+            Err(p) => Err(format!("panic {p}")),
+        };
+        let kb = match cx.b.relational().select("s", Condition::Eq("v".to_string(), RV::String(v.to_string()))) {
+            Ok(rows) => Ok(str_keys(&rows)),
+            Err(e) => Err(format!("error {}", vname(&e))),
+        };
+        if ka != kb || !matches!(&ka, Ok(ks) if ks.contains(&k)) {
+            return Some(StrFail {
+                layer: 3,
+                value: v.to_string(),
+                what: format!("`{sel}` finds the rows {ka:?}; RelationalEngine::select with Eq(v, {v:?}) finds {kb:?} (row {k} was inserted with that value)"),
+                statement: sel,
+                got: format!("{ka:?}"),
+            });
+        }
+        if deep {
+            // UPDATE … SET v = literal of the doubled value
+            let upd = format!("UPDATE s SET v = {} WHERE k = {k}", str_render(&v2, q));
+            if let Some(f) = str_parse_carries(&upd, &v2) {
+                return Some(f);
+            }
+            let ua = guarded(std::panic::AssertUnwindSafe(|| cx.a.execute_parsed(&upd)));
+            let mut up = std::collections::HashMap::new();
+            up.insert("v".to_string(), RV::String(v2.clone()));
+            let ub = cx.b.relational().update("s", Condition::Eq("k".to_string(), RV::Int(k)), up);
+            let (sa, sb) = (str_read_text(&cx.a, k), str_read_direct(&cx.b, k));
+            if !matches!(&ua, Ok(Ok(_))) || ub.is_err() || sa.as_deref() != Ok(v2.as_str()) || sb.as_deref() != Ok(v2.as_str()) {
+                return Some(StrFail {
+                    layer: 3,
+                    value: v2.clone(),
+                    what: format!("after `{upd}` SELECT v through the text path reads {sa:?}; after RelationalEngine::update with {v2:?} the direct select reads {sb:?}"),
+                    statement: upd,
+                    got: format!("{sa:?}"),
+                });
+            }
+            // NODE CREATE with the literal as a property value
+            let node = format!("NODE CREATE doc {{body: {lit}}}");
+            if let Some(f) = str_parse_carries(&node, v) {
+                return Some(f);
+            }
+            let na = guarded(std::panic::AssertUnwindSafe(|| cx.a.execute_parsed(&node)));
+            let mut props = std::collections::HashMap::new();
+            props.insert("body".to_string(), graph_engine::PropertyValue::String(v.to_string()));
+            let nb = cx.b.graph().create_node("doc", props);
+            let body = |q: &query_router::QueryRouter, id: u64| match q.graph().get_node(id) {
+                Ok(n) => match n.properties.get("body") {
+                    Some(graph_engine::PropertyValue::String(s)) => Ok(s.clone()),
+                    other => Err(format!("property {other:?}")),
+                },
+                Err(e) => Err(format!("error {}", vname(&e))),
+            };
+            let pa = match &na {
+                Ok(Ok(query_router::QueryResult::Ids(ids))) if ids.len() == 1 => body(&cx.a, ids[0]),
+                Ok(other) => Err(canon_qr(other)),
+                Err(p) => Err(format!("panic {p}")),
+            };
+            let pb = match &nb {
+                Ok(id) => body(&cx.b, *id),
+                Err(e) => Err(format!("error {}", vname(e))),
+            };
+            if pa.as_deref() != Ok(v) || pb.as_deref() != Ok(v) {
+                return Some(StrFail {
+                    layer: 3,
+                    value: v.to_string(),
+                    what: format!("`{node}` stores the property {pa:?}; GraphEngine::create_node with {v:?} stores {pb:?}"),
+                    statement: node,
+                    got: format!("{pa:?}"),
+                });
+            }
+        }
+    }
+    None
+}
+
+fn str_shape_hits(rep: &mut Report, v: &str, q: char) {
+    let other = if q == '\'' { '"' } else { '\'' };
+    let cs: Vec<char> = v.chars().collect();
+    let run = |c: char| -> usize {
+        let (mut best, mut cur) = (0, 0);
+        for x in &cs {
+            if *x == c {
+                cur += 1;
+                best = best.max(cur);
+            } else {
+                cur = 0;
+            }
+        }
+        best
+    };
+    rep.hit(if q == '\'' { "strlit.delimiter.apostrophe" } else { "strlit.delimiter.double_quote" });
+    rep.hit(&format!("strlit.value.other_quote_run.{}", match run(other) { 0 => "0", 1 => "1", 2 => "2", 3 => "3", _ => "4+" }));
+    rep.hit(&format!("strlit.value.delimiter_run.{}", match run(q) { 0 => "0", 1 => "1", 2 => "2", 3 => "3", _ => "4+" }));
+    rep.hit(&format!("strlit.value.backslash_run.{}", match run('\\') { 0 => "0", 1 => "1", 2 => "2", _ => "3+" }));
+    rep.hit(&format!("strlit.value.chars.{}", match cs.len() { 0 => "0", 1 => "1", 2 => "2", 3..=4 => "3-4", 5..=6 => "5-6", _ => "7+" }));
+    if cs.contains(&'\n') {
+        rep.hit("strlit.value.newline");
+    }
+}
+
+/// one value, one delimiter: the oracle (shrunk to the shortest value that fails at the same layer), the two
+/// reference functions against the Lean definitions, and (sampled) the literal through the lexer model
+fn str_case(m: &mut Model, rep: &mut Report, cx: &mut StrCx, stream: &str, v: &str, q: char, deep: bool, to_model: bool) {
+    let lit = str_render(v, q);
+    rep.case(stream, if v.chars().count() >= 2 { Some(&lit) } else { None });
+    str_shape_hits(rep, v, q);
+    if let Some(f) = str_eval(cx, v, q, deep) {
+        let class = str_class(f.layer);
+        rep.hit(&format!("violation.{class}"));
+        if cx.reported.insert(class.to_string()) {
+            let chars: Vec<char> = v.chars().collect();
+            let layer = f.layer;
+            let small: String = shrink_list(&chars, &mut |cand: &[char]| {
+                let s: String = cand.iter().collect();
+                str_eval(cx, &s, q, deep).map(|g| g.layer) == Some(layer)
+            })
+            .into_iter()
+            .collect();
+            let f = match str_eval(cx, &small, q, deep) {
+                Some(g) if g.layer == layer => g,
+                _ => f,
+            };
+            rep.violation(
+                class,
+                &f.what,
+                json!({"text": f.statement, "value_written": f.value, "value_code_points": str_cps(&f.value), "got": f.got,
+                       "canonical_literals": [str_render(&f.value, '\''), str_render(&f.value, '"')], "first_failing_value": v}),
+            );
+        }
+    } else {
+        rep.hit("strlit.round_trip.holds");
+    }
+    if to_model {
+        // the reference renderer / reference meaning are the Lean definitions
+        let body = &lit[1..lit.len() - 1];
+        let mr = m.ask(&format!("strrender {} {}", q as u32, str_cps(v)));
+        rep.compare("strlit.reference_vs_model", || json!({"value": v, "delimiter": q.to_string(), "op": "strrender"}), &str_cps_ans("body", body), &mr);
+        let mv = m.ask(&format!("strval {} {}", q as u32, str_cps(body)));
+        rep.compare("strlit.reference_vs_model", || json!({"body": body, "delimiter": q.to_string(), "op": "strval"}), &str_cps_ans("value", v), &mv);
+        rep.case("strlit.reference_vs_model", None);
+    }
+}
+
+/// an arbitrary body (canonical or not): the token's value is what the body means
+fn str_body_case(m: &mut Model, rep: &mut Report, cx: &mut StrCx, body: &str, q: char) {
+    use np::TokenKind as TK;
+    let want = str_ref_value(body, q);
+    let mv = m.ask(&format!("strval {} {}", q as u32, str_cps(body)));
+    let ref_ans = match &want {
+        Some(v) => str_cps_ans("value", v),
+        None => "none".to_string(),
+    };
+    rep.case("strlit.reference_vs_model", None);
+    rep.compare("strlit.reference_vs_model", || json!({"body": body, "delimiter": q.to_string(), "op": "strval"}), &ref_ans, &mv);
+    let Some(v) = want else {
+        rep.hit("strlit.body.not_a_body");
+        return;
+    };
+    let lit = format!("{q}{body}{q}");
+    rep.case("strlit.body", Some(&lit));
+    rep.hit(if body.contains('\\') { "strlit.body.with_backslash_escape" } else { "strlit.body.plain_and_doubled_only" });
+    let toks = guarded({ let l = lit.clone(); move || np::tokenize(&l) });
+    let ok = matches!(&toks, Ok(t) if t.len() == 2 && matches!(&t[0].kind, TK::String(s) if *s == v) && t[0].span.end.0 as usize == lit.len());
+    if !ok {
+        rep.hit(&format!("violation.{STR_LEX_CLASS}"));
+        if cx.reported.insert(format!("{STR_LEX_CLASS}#body")) && !cx.reported.contains(STR_LEX_CLASS) {
+            cx.reported.insert(STR_LEX_CLASS.to_string());
+            let got = match &toks { Ok(t) => str_show_toks(t), Err(p) => format!("panic {p}") };
+            rep.violation(STR_LEX_CLASS, &format!("the body of {lit} means {v:?} (doubled delimiter = one delimiter, escapes by the table, every other character itself) but it lexes as {got}"),
+                json!({"text": lit, "value_written": v, "value_code_points": str_cps(&v), "delimiter": q.to_string(), "got": got}));
+        }
+    }
+}
+
+/// every string over `alphabet` of length ≤ `n`, shortest first
+fn str_all(alphabet: &[char], n: usize) -> Vec<String> {
+    let mut all = vec![String::new()];
+    let mut frontier = vec![String::new()];
+    for _ in 0..n {
+        let mut next = Vec::with_capacity(frontier.len() * alphabet.len());
+        for s in &frontier {
+            for c in alphabet {
+                let mut t = s.clone();
+                t.push(*c);
+                next.push(t);
+            }
+        }
+        all.extend(next.iter().cloned());
+        frontier = next;
+    }
+    all
+}
+
+const STR_DIRECTED: &[&str] = &[
+    // the shortest values that need the rule "only the DELIMITER is un-doubled", and their neighbours
+    "\"\"", "''", "\"", "'", "\"\"\"", "'''", "\"\"\"\"", "''''", "'\"", "\"'", "'\"\"'", "\"''\"", "''\"\"", "\"\"''",
+    "{\"name\":\"\"}", "{\"a\":\"\",\"b\":1}", "it''s", "it's", "say \"\"hi\"\"", "say \"hi\"", "a''b\"\"c", "O''Brien said \"\"no\"\"",
+    "", "a", "\\", "\\\\", "\\'", "\\\"", "\\n", "\n", "a\nb", "\\\\n", "'\\'", "\"\\\"", "\\''", "\\\"\"", "''\\", "\"\"\\",
+    "\t", "\r", "\0", "é''é", "\u{1F600}\"\"", "-- ''", "/* \"\" */", "'' OR ''=''", "\"\" OR \"\"=\"\"",
+];
+
+const STR_PIECES: &[&str] = &[
+    "'", "'", "''", "'''", "\"", "\"", "\"\"", "\"\"\"", "\\", "\\\\", "\\'", "\\\"", "a", "b", "n", "0", " ", "\n", "\t", "é", "{", "}", ":", ",",
+    "'\"", "\"'", "''\"\"", "\"\"''", "--", "/*", "*/", "\u{1F600}", "x",
+];
+
+const STR_BODY_PIECES: &[&str] = &[
+    "'", "''", "''''", "\"", "\"\"", "\"\"\"\"", "\\'", "\\\"", "\\\\", "\\n", "\\t", "\\0", "\\x", "\\", "a", "n", " ", "é", "'\"", "\"'", "\n",
+];
+
+fn str_directed(m: &mut Model, rep: &mut Report, cx: &mut StrCx) {
+    for v in STR_DIRECTED {
+        for q in ['\'', '"'] {
+            str_case(m, rep, cx, "strlit.directed", v, q, true, true);
+            lex_case(m, rep, &str_render(v, q), "lex.strings");
+        }
+    }
+    // exhaustive: every value over {a, ', ", \} up to length 4, both delimiters
+    for v in str_all(&['a', '\'', '"', '\\'], 4) {
+        for q in ['\'', '"'] {
+            str_case(m, rep, cx, "strlit.exhaustive", &v, q, v.chars().count() <= 2, true);
+        }
+    }
+    // every BODY over {a, ', ", \} up to length 4 (most are not bodies of the delimiter at hand; those that are
+    // include every escape spelling)
+    for b in str_all(&['a', '\'', '"', '\\'], 4) {
+        for q in ['\'', '"'] {
+            str_body_case(m, rep, cx, &b, q);
+        }
+    }
+}
+
+fn stream_strings(m: &mut Model, rep: &mut Report, rng: &Rng, thorough: bool, cx: &mut StrCx) {
+    let mut r = rng.fork("strlit.random");
+    let n = if thorough { 20000 } else { 1500 };
+    for i in 0..n {
+        // 0..6 pieces, each a character or a run: values of 0..~14 characters rich in both quotes and backslashes;
+        // now and then a longer JSON-like / prose value
+        let mut v = String::new();
+        if r.chance(1, 12) {
+            let inner = |r: &mut Rng| (*r.pick(&["", "", "a", "it''s", "\"\"", "x\\y"])).to_string();
+            v = match r.below(3) {
+                0 => format!("{{\"name\":\"{}\",\"tags\":[\"{}\",\"\"]}}", inner(&mut r), inner(&mut r)),
+                1 => format!("He said \"{}\" and ''{}''", inner(&mut r), inner(&mut r)),
+                _ => format!("{}{}{}", "'".repeat(r.below(7) as usize), "\"".repeat(r.below(7) as usize), "\\".repeat(r.below(4) as usize)),
+            };
+            rep.hit("strlit.random.long_value");
+        } else {
+            for _ in 0..r.below(7) {
+                v.push_str(*r.pick(STR_PIECES));
+            }
+        }
+        let deep = i % 8 == 0;
+        for q in ['\'', '"'] {
+            str_case(m, rep, cx, "strlit.random", &v, q, deep, i % 4 == 0);
+        }
+        if i % 6 == 0 {
+            lex_case(m, rep, &str_render(&v, if r.chance(1, 2) { '\'' } else { '"' }), "lex.strings");
+        }
+        // a raw body
+        let mut b = String::new();
+        for _ in 0..r.below(7) {
+            b.push_str(*r.pick(STR_BODY_PIECES));
+        }
+        str_body_case(m, rep, cx, &b, if r.chance(1, 2) { '\'' } else { '"' });
+    }
+}
+
 // ------------------------------------------------------------------ clauses the router evaluates itself (Exec.lean)
 //
 // Third clause of the property ("executing a statement given as text has the same effect and result as the
@@ -7020,6 +7649,8 @@ fn main() {
         rep.expected_branches.push(k.to_string());
     }
     directed_known(&mut rep);
+    let mut scx = StrCx::new();
+    str_directed(&mut m, &mut rep, &mut scx);
     let mut xcx = XCtx { reported: Default::default(), model_on: true };
     let t_x = Instant::now();
     xs_directed(&mut m, &mut rep, &mut xcx, &rng);
@@ -7038,6 +7669,7 @@ fn main() {
     stream_clause(&mut m, &mut rep, &rng, args.thorough);
     stream_lex(&mut m, &mut rep, &rng, args.thorough);
     stream_comments(&mut m, &mut rep, &rng, args.thorough);
+    stream_strings(&mut m, &mut rep, &rng, args.thorough, &mut scx);
     stream_text(&mut m, &mut rep, &rng, args.thorough);
     f_chains(&mut m, &mut rep, &rng, args.thorough);
     stream_full(&mut m, &mut rep, &rng, args.thorough);
